@@ -45,6 +45,13 @@ CLAIMS = {
         "immutable; declaration ids fresh per iteration; transformer passes start/stop/step/values in grammar order. Decides these necessary conditions, not equivalence with the unrolled program.",
    technique="idiom matching over ast + CFG + call-graph effect analysis + def-use slices",
    ref="DESIGN.md §2 C16"),
+ "C13": dict(
+   text="Static analysis over constant-evaluated tables and slot traces: the allocatable list minus the exclusion set (which must name RESERVED_SIGNALS and WILDCARD_SIGNALS whenever the list "
+        "contains one of them) can yield neither a wildcard nor the write-enable signal; the three reserved tables agree; the allocator returns pool members only; contributions to the exclusion "
+        "sets are classified by the AST attribute they read (variable name vs signal name) and an explicit built-in signal name must reach it; explicit names pass name resolution unchanged. "
+        "Decides these table/flow clauses, not the renaming-invariance consequence.",
+   technique="constant evaluation of tables + def-use slot tracing with kind classification + guard-chain analysis",
+   ref="DESIGN.md §2 C13"),
 }
 NA_DEFAULT = "check not built yet (build phase in progress); see DESIGN.md for the planned rules"
 NA = {}
